@@ -5,16 +5,68 @@ from .. import driver
 from ..model import Model
 
 
-def graph_from_presence(dn, directed, presence, ids=None):
-    """build (G, m) from {(u, v): iterable of instants} using interval adds (runs)"""
+def graph_from_presence(dn, directed, presence, ids=None, rng=None):
+    """build (G, m) from {(u, v): iterable of instants}.  Without rng: one interval add per run.  With rng the
+    construction style varies (the presence relation, hence every expected answer, is the same):
+      runs        one add per run, pair after pair
+      bulk-head   the first runs of all pairs that start at the same instant are loaded by ONE
+                  add_interactions_from call with the shortest of their lengths, then each is prolonged to its
+                  full length by an adjacent or an overlapping re-add; later runs follow in time order
+      chrono      one add per run, all runs of all pairs in order of their start (pairs interleaved)
+      instants    instant after instant, every pair present at that instant added by one bulk call without e"""
     from ..model import runs
     G = driver.new_graph(dn, directed, True)
     m = Model(directed, True)
-    for (u, v), inst in presence.items():
-        for a, b in runs(set(inst)):
-            e = None if a == b else b + 1
-            G.add_interaction(u, v, a, e)
-            m.apply(u, v, a, e)
+    style = "runs" if rng is None else rng.choice(("runs", "runs", "bulk-head", "bulk-head", "chrono", "instants"))
+
+    def add(u, v, a, b):
+        e = None if a == b else b + 1
+        G.add_interaction(u, v, a, e)
+        m.apply(u, v, a, e)
+
+    allruns = {k: runs(set(inst)) for k, inst in presence.items()}
+    if style == "runs":
+        for (u, v), rr in allruns.items():
+            for a, b in rr:
+                add(u, v, a, b)
+    elif style == "chrono":
+        seq = sorted(((a, rng.random(), b, k) for k, rr in allruns.items() for (a, b) in rr),
+                     key=lambda x: (x[0], x[1]))
+        for a, _, b, (u, v) in seq:
+            add(u, v, a, b)
+    elif style == "instants":
+        inst = sorted(set(t for s_ in presence.values() for t in s_))
+        for t in inst:
+            pairs = [k for k, s_ in presence.items() if t in s_]
+            rng.shuffle(pairs)
+            G.add_interactions_from(pairs if rng.random() < 0.5 else iter(pairs), t)
+            for (u, v) in pairs:
+                m.apply(u, v, t, None)
+    else:
+        heads = {}
+        for k, rr in allruns.items():
+            if rr:
+                heads.setdefault(rr[0][0], []).append(k)
+        rest = []
+        for a, ks in sorted(heads.items(), key=lambda x: x[0]):
+            L = min(allruns[k][0][1] for k in ks)             # common part [a, L]
+            e = None if L == a else L + 1
+            G.add_interactions_from(list(ks), a, e)
+            for (u, v) in ks:
+                m.apply(u, v, a, e)
+            for k in ks:
+                b = allruns[k][0][1]
+                if b > L:
+                    # prolong: adjacent (starts right after the common part) or overlapping (starts inside it)
+                    s0 = L + 1 if rng.random() < 0.5 else rng.randint(a, L)
+                    add(k[0], k[1], s0, b)
+                rest += [(r[0], rng.random(), r[1], k) for r in allruns[k][1:]]
+        for a, _, b, (u, v) in sorted(rest, key=lambda x: (x[0], x[1])):
+            add(u, v, a, b)
+    want = {m.key(u, v): set(s_) for (u, v), s_ in presence.items() if s_}
+    got = {k: set(s_) for k, s_ in m.P.items() if s_}
+    if want != got:
+        raise AssertionError("harness: construction style %r does not denote the requested presence" % style)
     return G, m
 
 
@@ -72,7 +124,7 @@ def random_temporal_graph(rng, dn, strings=False, max_nodes=5, max_ids=6, p_loop
         presence.setdefault((u, v), set()).update(rng.sample(times, min(k, len(times))))
     if not presence:
         presence[(nodes[0], nodes[1])] = {times[0]}
-    G, m = graph_from_presence(dn, directed, presence)
+    G, m = graph_from_presence(dn, directed, presence, rng=rng)
     return G, m, nodes, presence
 
 
@@ -127,7 +179,7 @@ def motif_graph(rng, dn, strings=False):
             k = (b, a) if (b, a) in merged else (a, b)
             merged.setdefault(k, set()).update(sset)
         presence = merged
-    G, m = graph_from_presence(dn, directed, presence)
+    G, m = graph_from_presence(dn, directed, presence, rng=rng)
     return G, m, list(m.nodes), presence
 
 
@@ -184,5 +236,5 @@ def long_pair_graph(rng, dn, strings=False):
     for (x, y) in ((b, c), (c, d), (c, a)):
         k = rng.randint(1, 2)
         presence[(x, y)] = set(rng.sample(range(base, t), k))
-    G, m = graph_from_presence(dn, directed, presence)
+    G, m = graph_from_presence(dn, directed, presence, rng=rng)
     return G, m, list(m.nodes), presence
